@@ -58,6 +58,10 @@ package container
 //@ spec func StackKept(r SingletonComponentRegistry, x string) bool = RTop >= old(RTop) && forall(n, string, implies(old(r.IC[n]) && n != x, St[n] == old(St[n]) && ShortCircuit[n] == old(ShortCircuit[n]) && Wrapped[n] == old(Wrapped[n]) && r.Creates[n] == old(r.Creates[n])), St[n], old(St[n]), old(r.IC[n]))
 //@ spec func StackKeptAll(r SingletonComponentRegistry) bool = RTop >= old(RTop) && forall(n, string, implies(old(r.IC[n]), St[n] == old(St[n]) && ShortCircuit[n] == old(ShortCircuit[n]) && Wrapped[n] == old(Wrapped[n]) && r.Creates[n] == old(r.Creates[n])), St[n], old(St[n]), old(r.IC[n]))
 
+// InjKept(r, x): the injection trace of every name that was in creation (other than x) is untouched: a nested creation
+// only ever writes the trace of the names it creates itself, and those are not yet in creation when it starts.
+//@ spec func InjKept(r SingletonComponentRegistry, x string) bool = forall(n, string, implies(old(r.IC[n]) && n != x, InjVisited[n] == old(InjVisited[n]) && InjNeeded[n] == old(InjNeeded[n]) && InjDone[n] == old(InjDone[n])), InjVisited[n], InjNeeded[n], InjDone[n])
+//@ spec func InjKeptAll(r SingletonComponentRegistry) bool = forall(n, string, implies(old(r.IC[n]), InjVisited[n] == old(InjVisited[n]) && InjNeeded[n] == old(InjNeeded[n]) && InjDone[n] == old(InjDone[n])), InjVisited[n], InjNeeded[n], InjDone[n])
 //@ spec func CachesUnchanged(r SingletonComponentRegistry) bool = r.L1Dom == old(r.L1Dom) && r.L1 == old(r.L1) && r.L2Dom == old(r.L2Dom) && r.L2 == old(r.L2) && r.L3Dom == old(r.L3Dom) && r.L3 == old(r.L3) && r.IC == old(r.IC)
 
 // ---- creation callbacks -------------------------------------------------------------------------------
@@ -77,6 +81,7 @@ package container
 //@ ensures [cb-creator-counts] implies(self.Role == RoleCreator(), self.Reg.Creates[self.ForName] == old(self.Reg.Creates[self.ForName]) + 1)
 //@ ensures [cb-creator-marks] implies(self.Role == RoleCreator(), self.Reg.IC == old(self.Reg.IC))
 //@ ensures [cb-stack-kept] StackKept(self.Reg, self.ForName) && implies(self.Role == RoleEarlyRef(), StackKeptAll(self.Reg))
+//@ ensures [cb-inj-trace-kept] InjKept(self.Reg, self.ForName) && implies(self.Role == RoleEarlyRef(), InjKeptAll(self.Reg))
 //@ ensures [cb-failure-surfaces] implies(result1 == nil, Failed == old(Failed))
 //@ ensures [cb-hole] implies(self.Reg.HasHole, self.Role == RoleCreator() && self.Reg.Hole == self.ForName) && implies(self.Role == RoleEarlyRef(), self.Reg.HasHole == old(self.Reg.HasHole) && self.Reg.Hole == old(self.Reg.Hole))
 
@@ -98,6 +103,7 @@ package container
 //@ ensures [never-creates] self.Creates == old(self.Creates) && self.L1Dom == old(self.L1Dom) && self.L1 == old(self.L1) && self.IC == old(self.IC) && self.L3 == old(self.L3) && self.HasHole == old(self.HasHole) && self.Hole == old(self.Hole)
 //@ ensures [failed-early-ref] implies(result1 != nil, result0 == nil && CachesUnchanged(self))
 //@ ensures [stack-kept] StackKeptAll(self)
+//@ ensures [inj-trace-kept] InjKeptAll(self)
 //@ ensures [failure-surfaces] implies(result1 == nil, Failed == old(Failed))
 
 //@ method (SingletonComponentRegistry).GetSingletonOrCreateByFactory
@@ -116,6 +122,7 @@ package container
 //@ ensures [ic-restored] self.IC == old(self.IC)
 //@ ensures [no-hole-left] !self.HasHole
 //@ ensures [stack-kept] StackKeptAll(self)
+//@ ensures [inj-trace-kept] InjKeptAll(self)
 //@ ensures [failure-surfaces] implies(result1 == nil, Failed == old(Failed))
 //@ ensures [publishes-once] implies(!old(self.L1Dom[name]), self.Creates[name] == old(self.Creates[name]) + 1)
 //@ ensures [failed-create-leaves-nothing] implies(result1 != nil && !old(self.L1Dom[name]), !self.IC[name] && !self.L1Dom[name] && !self.L2Dom[name] && !self.L3Dom[name])
@@ -193,6 +200,12 @@ package container
 //@ ghost var PropsLen map[string]int
 //@ ghost var PropsAt map[string]map[int]InstantiationAwareComponentPostProcessor
 //@ ghost var PropsPos map[string]map[int]int
+//   Injection trace of populateComponent, per component name and position k in its list of component properties:
+//   InjVisited[name][k] the point was looked at, InjNeeded[name][k] it had candidates at that moment,
+//   InjDone[name][k] Property.Inject was called for it
+//@ ghost var InjVisited map[string]map[int]bool
+//@ ghost var InjNeeded map[string]map[int]bool
+//@ ghost var InjDone map[string]map[int]bool
 //   AiAnswer[name][i]: what processor i of the delegate's list answered from PostProcessAfterInstantiation for the
 //   component; PropsOfPos[name][i]: which entry of the properties trace belongs to processor i (witness of "it ran")
 //@ ghost var AiAnswer map[string]map[int]bool
@@ -246,7 +259,7 @@ package container
 // What a creation (creating callback, early-reference callback, and every registry operation that may run one) is
 // allowed to touch besides the registry's own caches: injection-point candidate lists and tag values, dependents,
 // memory behind settable fields, lifecycle / narrowing ghost state. A-CALLBACK: user callbacks stay inside this frame.
-//@ frame CreationFrame() = ShortCircuit, Wrapped, anyfield(component_definition.Property, Injects), anyfield(component_definition.Property, TagVal), anyfield(component_definition.Meta, Dependent), anyfield(sync2.Map[string, struct{}], Dom), anyfield(sync2.Map[string, struct{}], Val), RMem, RTop, FilterSrc, FilterPos, MetasPos, MetasKey, PosSnap, allmaps(map[string]any), ElLastInput, St, PropsLen, PropsAt, PropsPos, AiAnswer, PropsOfPos, BeforeLen, BeforeAt, AfterLen, AfterAt, ApsCalls, InitCalls, CurName, Failed
+//@ frame CreationFrame() = ShortCircuit, Wrapped, anyfield(component_definition.Property, Injects), anyfield(component_definition.Property, TagVal), anyfield(component_definition.Meta, Dependent), anyfield(sync2.Map[string, struct{}], Dom), anyfield(sync2.Map[string, struct{}], Val), RMem, RTop, FilterSrc, FilterPos, MetasPos, MetasKey, PosSnap, allmaps(map[string]any), ElLastInput, St, PropsLen, PropsAt, PropsPos, AiAnswer, PropsOfPos, InjVisited, InjNeeded, InjDone, BeforeLen, BeforeAt, AfterLen, AfterAt, ApsCalls, InitCalls, CurName, Failed
 //@ frame RegFrame(r) = r.L1Dom, r.L1, r.L2Dom, r.L2, r.L3Dom, r.L3, r.IC, r.EarlyRuns, r.Creates, r.HasHole, r.Hole
 
 // ---- instantiation-aware processors (C05, C09, C18): all three run before the component's initialization ---------
@@ -269,7 +282,7 @@ package container
 //@ property C05 C09 C18
 //@ requires [properties-before-initialization] St[componentName] == 0
 //@ assigns CreationFrame()
-//@ ensures [lifecycle-untouched] St == old(St) && BeforeLen == old(BeforeLen) && AfterLen == old(AfterLen) && ApsCalls == old(ApsCalls) && InitCalls == old(InitCalls) && ShortCircuit == old(ShortCircuit) && Wrapped == old(Wrapped) && RTop >= old(RTop)
+//@ ensures [lifecycle-untouched] St == old(St) && BeforeLen == old(BeforeLen) && AfterLen == old(AfterLen) && ApsCalls == old(ApsCalls) && InitCalls == old(InitCalls) && ShortCircuit == old(ShortCircuit) && Wrapped == old(Wrapped) && InjVisited == old(InjVisited) && InjNeeded == old(InjNeeded) && InjDone == old(InjDone) && RTop >= old(RTop)
 //@ ensures [delegate-trace-untouched] AiAnswer == old(AiAnswer) && PropsOfPos == old(PropsOfPos)
 //@ ensures [failure-recorded] Failed == (old(Failed) || result1 != nil)
 //@ ensures [properties-traced] PropsLen == store(old(PropsLen), componentName, old(PropsLen[componentName]) + 1) && PropsAt == store(old(PropsAt), componentName, store(old(PropsAt[componentName]), old(PropsLen[componentName]), toany(self))) && PropsPos == old(PropsPos)
